@@ -16,6 +16,7 @@ from ..cfg import build_cfg
 from ..dataflow import Inliner, local_defs
 from ..loader import AnalysisError, FuncInfo, Program, calls_in, norm, walk_no_nested
 from ..minieval import PredUnsupported, Raises, ev
+from ..normalize import flat
 from ..report import Ledger
 
 
@@ -74,6 +75,7 @@ def run(prog: Program, L: Ledger) -> None:
     add = mc.methods.get("add_move")
     if not (ym and step and add):
         raise AnalysisError("MonteCarlo.yield_moves/step/add_move anchor missing")
+    ym, step, add = flat(prog, ym, mc), flat(prog, step, mc), flat(prog, add, mc)
     for sub in prog.subclasses(mc, strict=True):
         for m in ("yield_moves", "step", "add_move"):
             if m in sub.methods:
@@ -302,7 +304,7 @@ def run(prog: Program, L: Ledger) -> None:
                 continue
             root = node.ast if node.kind != "iter" else node.ast.iter
             for c in (n for n in walk_no_nested(root) if isinstance(n, ast.Call)):
-                ftxt2 = norm(sinl.inline(c.func)) if isinstance(c.func, ast.Name) else norm(c.func)
+                ftxt2 = norm(sinl.inline(c.func))
                 if ftxt2 == f"self.moves[{var}].move":
                     segs[-1].append(c)
         for seg in segs[1:-1]:
